@@ -1,5 +1,4 @@
 import PGV.Props.C08
-import PGV.Props.Facts
 
 #print axioms PGV.Props.C08.getST_coherent
 #print axioms PGV.Props.C08.C08_call_transparent
@@ -7,8 +6,3 @@ import PGV.Props.Facts
 #print axioms PGV.Props.C08.C08_history
 #print axioms PGV.Props.C08.C08_cache_independent
 #print axioms PGV.Props.C08.lru_load_eq
-#print axioms PGV.Props.Facts.T2_patterns
-#print axioms PGV.Props.Facts.T2_rule_table
-#print axioms PGV.Props.Facts.T2_model_keys
-#print axioms PGV.Props.Facts.T2_lock_discipline
-#print axioms PGV.Props.Facts.T2_globals
